@@ -179,6 +179,7 @@ type world struct {
 	inModel map[common.Hash]bool // hashes the model believes are cached
 	ever    map[common.Hash]string
 	big     bool
+	tainted bool // the cache holds leftovers of a failed commit: leaf callbacks on them are unobservable
 }
 
 func newWorld(r *runner) *world {
@@ -203,6 +204,7 @@ func (w *world) purgeInModel() {
 }
 
 func (w *world) restart() {
+	w.tainted = false
 	w.sdb = account.NewDatabase(w.rec)
 	w.inModel = map[common.Hash]bool{}
 }
@@ -795,6 +797,7 @@ func (w *world) commitFrom(adb *account.AccountDB, touched map[common.Address]bo
 	}
 	root, err := adb.Commit(true)
 	if err != nil {
+		w.tainted = true
 		r.stats["state_commit_err"]++
 		r.step("state.Commit error: " + err.Error())
 		if os.Getenv("VERIF_DEBUG") != "" {
@@ -843,12 +846,20 @@ func (w *world) commitFrom(adb *account.AccountDB, touched map[common.Address]bo
 	if w.rec.deletes > 0 {
 		r.violate("disk-delete", "the state store received a Delete")
 	}
+	q := ""
+	if w.tainted {
+		q = "?"
+		r.stats["loose_commit_ops"]++
+	}
 	if cerr == nil {
-		r.out.Emit(fmt.Sprintf("commit %s %s", hs(root), traceString(writes)), "ok "+traceString(writes))
+		r.out.Emit(fmt.Sprintf("commit%s %s %s", q, hs(root), traceString(writes)), "ok "+traceString(writes))
 		r.step(fmt.Sprintf("trieDB.Commit %x ok: %d batches", root[:4], len(writes)))
 	} else {
 		r.stats["failed_commits"]++
-		r.out.Emit(fmt.Sprintf("fail %s %d %s %s", hs(root), p.failAt, traceString(writes), batchString(w.rec.refused)), "err "+traceString(writes))
+		r.out.Emit(fmt.Sprintf("fail%s %s %d %s %s", q, hs(root), p.failAt, traceString(writes), batchString(w.rec.refused)), "err "+traceString(writes))
+		if !p.die && !p.retry {
+			w.tainted = true
+		}
 		r.step(fmt.Sprintf("trieDB.Commit %x FAILED after %d batches", root[:4], len(writes)))
 	}
 
@@ -961,7 +972,7 @@ func (w *world) commitFrom(adb *account.AccountDB, touched map[common.Address]bo
 		if err2 != nil {
 			r.violate("retry-failed", "second commit attempt failed: "+err2.Error())
 		} else {
-			r.out.Emit(fmt.Sprintf("commit %s %s", hs(root), traceString(writes2)), "ok "+traceString(writes2))
+			r.out.Emit(fmt.Sprintf("commit%s %s %s", q, hs(root), traceString(writes2)), "ok "+traceString(writes2))
 			disk := w.rec.snapshot()
 			st := fullCheck(disk, root)
 			if !st.resolvable {
